@@ -140,38 +140,26 @@ Proof.
     + congruence.
 Qed.
 
-(* the same for VerifyDualProofV2 (sourceTxID < targetTxID) *)
+(* the same for VerifyDualProofV2 *)
 Theorem dual_proof_v2_same_target_unique p1 p2 src tgt a b talh t1 t2 :
   d2_tgt p1 = Some t1 -> d2_tgt p2 = Some t2 -> hdr_valid t1 = true -> hdr_valid t2 = true ->
-  len32 (d2_incl p1) -> len32 (d2_incl p2) -> src <> tgt ->
+  len32 (d2_incl p1) -> len32 (d2_incl p2) ->
   verify_dual_proof_v2 H (Some p1) src tgt a talh = Ok true ->
   verify_dual_proof_v2 H (Some p2) src tgt b talh = Ok true ->
   a = b \/ Collision.
 Proof.
-  intros T1 T2 V1 V2 F1 F2 Ne A1 A2.
-  assert (Inv : forall p t x, d2_tgt p = Some t ->
-            verify_dual_proof_v2 H (Some p) src tgt x talh = Ok true ->
-            alh_v H t = talh /\
-            verify_inclusion H (d2_incl p) src (h_bltxid t) (leaf_for H x) (h_blroot t) = true).
-  { intros p t x Tp V. unfold verify_dual_proof_v2, verify_dual_proof_v2_gen in V. rewrite Tp in V.
-    destruct (d2_src p) as [sh|]; [|discriminate].
-    destruct ((h_id sh =? 0) || negb (h_id sh =? src) || negb (h_id t =? tgt)); [discriminate|].
-    destruct (tgt <? src); [discriminate|].
-    destruct (alh H sh) as [x'| |]; cbn [bind] in V; try discriminate.
-    destruct (negb (bytes_eqb x x')); [discriminate|].
-    destruct (alh H t) as [y| |] eqn:Et; cbn [bind] in V; try discriminate.
-    destruct (bytes_eqb talh y) eqn:Ey; cbn [negb] in V; [|discriminate].
-    apply list_eqb_eq in Ey. subst y. apply alh_ok in Et as [Et _].
-    destruct (negb (h_id sh - 1 =? h_bltxid sh) || negb (h_id t - 1 =? h_bltxid t)); [discriminate|].
-    destruct (N.eqb_spec src tgt); [contradiction|].
-    destruct (verify_inclusion H (d2_incl p) src (h_bltxid t) (leaf_for H x) (h_blroot t)); [|discriminate].
-    auto. }
-  destruct (Inv _ _ _ T1 A1) as [E1 I1]. destruct (Inv _ _ _ T2 A2) as [E2 I2].
-  destruct (alh_binding H H_len t1 t2 V1 V2 ltac:(congruence)) as [Ef|C]; auto.
-  assert (EB : h_bltxid t1 = h_bltxid t2) by (unfold hashed_fields in Ef; congruence).
-  assert (ER : h_blroot t1 = h_blroot t2) by (unfold hashed_fields in Ef; congruence).
-  rewrite <- EB, <- ER in I2. unfold leaf_for in I1, I2.
-  apply (inclusion_unique _ _ _ _ _ _ _ F1 F2 I1 I2).
+  intros T1 T2 V1 V2 F1 F2 A1 A2.
+  apply (verify_dual_proof_v2_inv H H_len) in A1 as (s1 & t1' & _ & T1' & _ & _ & _ & _ & _ & Eb1 & _ & B1 & Ceq1 & Clt1).
+  apply (verify_dual_proof_v2_inv H H_len) in A2 as (s2 & t2' & _ & T2' & _ & _ & _ & Le & _ & Eb2 & _ & B2 & Ceq2 & Clt2).
+  rewrite T1 in T1'. rewrite T2 in T2'. injection T1' as <-. injection T2' as <-.
+  destruct (N.eq_dec src tgt) as [E|Ne].
+  - left. rewrite (Ceq1 E), (Ceq2 E). reflexivity.
+  - destruct (Clt1 ltac:(lia)) as [I1 _]. destruct (Clt2 ltac:(lia)) as [I2 _].
+    apply alh_ok in Eb1 as [Eb1 _]. apply alh_ok in Eb2 as [Eb2 _].
+    destruct (alh_binding H H_len t1 t2 V1 V2 ltac:(congruence)) as [Ef|C]; auto.
+    assert (ER : h_blroot t1 = h_blroot t2) by (unfold hashed_fields in Ef; congruence).
+    rewrite <- ER in I2. unfold leaf_for in I1, I2.
+    apply (inclusion_unique _ _ _ _ _ _ _ F1 F2 I1 I2).
 Qed.
 
 End Unique.
